@@ -84,14 +84,14 @@ def afterLeaf (pool : List Node) (M : Int) (f : Nat) (stack : List Int) (depth :
 
 theorem afterLeaf_neg_one (pool : List Node) (M : Int) (f : Nat) (stack : List Int)
     (depth : List Nat) : afterLeaf pool M f (-1 :: stack) depth = afterLeaf pool M f stack depth := by
-  simp [afterLeaf, List.dropWhile_cons]
+  simp [afterLeaf]
 
 theorem afterLeaf_nat (pool : List Node) (M : Int) (f : Nat) (q : Nat) (stack : List Int)
     (depth : List Nat) :
     afterLeaf pool M f ((q : Int) :: stack) depth = setDepthLoop pool M f q (-1 :: stack) depth := by
   have : ((q : Int) == -1) = false := by
     simp only [beq_eq_false_iff_ne, ne_eq]; omega
-  simp [afterLeaf, List.dropWhile_cons, this]
+  simp [afterLeaf, this]
 
 /-- `BrotliSetDepth` on a laid-out tree: if the tree fits below `max_depth` the
 loop writes its leaf depths and goes on; if not it returns `false` having
